@@ -173,8 +173,12 @@ def main(argv=None):
         return 3
     # ---------------------------------------------------------------- proof obligations
     jobs = [(m, c.name, seed, None) for m, c in cases if c.proved]
-    with mp.Pool(min(args.jobs, max(1, len(jobs)))) as pool:
-        results = pool.map(_worker, jobs, chunksize=1) if jobs else []
+    # clauses that need the exact (unabstracted) semantics are additionally proved with the sequence length fixed
+    # (all integer coordinates, block count n): reported as separate obligations '<clause>[len=n]'
+    also_jobs = [(m, c.name, seed, None, n) for m, c in cases if c.proved for n in getattr(c, "also_scopes", ())]
+    with mp.Pool(min(args.jobs, max(1, len(jobs) + len(also_jobs)))) as pool:
+        all_res = pool.map(_worker, jobs + also_jobs, chunksize=1) if jobs else []
+        results, also_results = all_res[:len(jobs)], all_res[len(jobs):]
         # ------------------------------------------------------------ finite-scope refutation of undecided VCs
         # (quantifier instantiation is refutation-incomplete: a false quantified VC answers 'unknown', DESIGN 2.9)
         fs_jobs = []
@@ -205,7 +209,18 @@ def main(argv=None):
             if not ok and cov not in getattr(c, "allow_uncovered", ()):
                 lines.append(f"CHECKER-ERROR case={c.name}: cover '{cov}' unreachable (vacuous contract clause)")
                 bump(3)
-        for v in r["verdicts"]:
+        verdicts = list(r["verdicts"])
+        for ar in also_results:
+            if ar["case"] == c.name:
+                if ar["error"]:
+                    lines.append(f"CHECKER-ERROR case={c.name}[len={ar['scope']}]: {ar['error'][:800]}")
+                    bump(3)
+                for v in ar["verdicts"]:
+                    v2 = dict(v)
+                    v2["name"] = f"{v['name']}[len={ar['scope']}]"
+                    v2["backend"] = f"z3, sequence length fixed to {ar['scope']} (all integer coordinates)"
+                    verdicts.append(v2)
+        for v in verdicts:
             ob = dict(v)
             ob["case"] = c.name
             ob["module"] = modname
@@ -242,8 +257,9 @@ def main(argv=None):
     for o in refuted:
         nat = next(it) if o["prims"] is not None else None
         rp = write_replay(prop, o, nat)
+        clause = o["name"].split("[len=")[0]
         confirmed = bool(nat and not nat.get("skip") and not nat.get("error")
-                         and nat.get("checks", {}).get(o["name"]) is False)
+                         and nat.get("checks", {}).get(clause) is False)
         o["native"] = nat
         o["confirmed"] = confirmed
         kf = match_known(known, o)
@@ -349,7 +365,14 @@ ASSUMPTIONS = [
     "A5 lru_cache / methodtools.lru_cache are identities on values",
     "A6 warnings.warn does not raise",
 ]
-NOT_COVERED = {}
+NOT_COVERED = {
+    "C01": ["CompoundInterval.relative_interval_to_parent_location and CompoundInterval._location_relative_to "
+            "(block-list rebuild followed by constructor re-sort / optimize_blocks): no unbounded contract yet",
+            "overlapping-block layouts for the interval forms"],
+    "C02": ["CompoundInterval.intersection / union / minus / has_overlap / contains / gap_list / extend_* with compound "
+            "operands: no unbounded contract yet",
+            "random pairs over large genomes (replaced by the unbounded single-interval proofs)"],
+}
 
 
 def match_known(known, o):
@@ -554,7 +577,7 @@ def check_known_witnesses(prop, known, obligations, bounded_report):
         for k in known:
             report.append(dict(id=k.get("id"), status=k.get("status")))
         return lines, report
-    res = run_native([dict(module=k["module"], case=k["case"], prims=k["witness"]) for k in todo])
+    res = run_native([dict(module=k["module"], case=k["case"], prims=k["witness"], raw=True) for k in todo])
     printed = set()
     for k, r in zip(todo, res):
         still = r.get("checks", {}).get(k["obligation"]) is False
